@@ -48,6 +48,8 @@ func init() {
 			{ID: "C20-R25", Title: "separators are required between the items of a list", Floor: 1, Run: separatorsAreRequired},
 			{ID: "C20-R26", Title: "the rollback restores what compilation moves (shared with C18-R18)", Floor: 1, Run: rollbackRestoresWhatCompilationMoves},
 			{ID: "C20-R27", Title: "a group that spans lines closes after a line break too", Floor: 1, Run: aGroupThatSpansLinesClosesAfterALineBreakToo},
+			{ID: "C20-R28", Title: "positions from template fragments do not outlive the fragment", Floor: 1, Run: positionsFromFragmentsDoNotOutliveTheFragment},
+			{ID: "C20-R29", Title: "text copied across line ends drops the carriage return", Floor: 1, Run: textCopiedAcrossLineEndsDropsTheCarriageReturn},
 		},
 	})
 }
